@@ -220,6 +220,7 @@ RULE = (
     "relations: gamut membership identical for targets outside the boundary band (LP margin, scale-free) in bounded, unbounded and flat "
     "configurations; range-of-solution ends scale by 1/s (1e-7 of the range); uniquely determined fits (n_sources <= n_receptors): X*s, "
     "B_pred/c and error/c equal within the C04 tolerances. Non-trivial = an asserted unit change by a factor >= 3."
+    " Spaced solutions (n in {2,3,5}) are compared across the unit change; a fifth of the range cases have whole-number bounds handed over as int64 arrays / lists of ints."
 )
 
 PROP = Prop(
